@@ -221,6 +221,18 @@ func channelCheck(r *vrt.Result) string {
 			return fmt.Sprintf("zero-value: Get returned %v, which was never sent", o.res[0])
 		}
 	}
+	// C12: once a Close has returned, every later Get / Commit returns an error
+	var closedAt int64
+	for _, o := range ops {
+		if o.kind == "Close" && !o.pending && (closedAt == 0 || o.ret < closedAt) {
+			closedAt = o.ret
+		}
+	}
+	for _, o := range ops {
+		if closedAt != 0 && o.call > closedAt && !o.pending && (o.kind == "Get" && !errOf(o.res, 1) || o.kind == "Commit" && !errOf(o.res, 0)) {
+			return fmt.Sprintf("close-later-call: %s was called after Close had returned and did not fail", o)
+		}
+	}
 	ok, why := linearize(chanModel{}, &chmState{}, ops)
 	if !ok {
 		return "no-linearization: " + why
